@@ -181,7 +181,11 @@ def judgeCore (s : JState) (e : Ev) : JState :=
       match r with
       | .overran => s.flag s!"timed-join-unbounded worker={w} timeout={t} thread-finished={k.exited}"
       | .rc1 => if k.exited then s.setW w { k with joined := true } else s.flag s!"join-true-on-live-thread worker={w}"
-      | .rc0 => if k.exited then s.flag s!"join-false-on-finished-thread worker={w}" else s
+      | .rc0 =>
+        if k.exited then s.flag s!"join-false-on-finished-thread worker={w}"
+        -- false = the time is up: only after all ceil(t/10) sleeps (a join that gives up earlier stopped polling)
+        else if sl < sleepsFor t.toNat then s.flag s!"timed-join-gave-up-early worker={w} timeout={t} sleeps={sl}"
+        else s
     | none => s.flag "unknown-worker"
   | .wdestroy _ _ => s
   | .tinit rc => if rc = 0 then { s with tInited := true, tActive := false } else s.flag s!"timer-init rc={rc}"
